@@ -4,6 +4,7 @@ CONSTANTS NMax = 35
  AllPos = TRUE
  DetMax = 8
  Draws = 4
+ Lean = FALSE
  PosPer = 2
  Extra = 4000
  PredExtra = 3000
